@@ -30,8 +30,13 @@ def run(ctx):
             if f["confusion"]:
                 nconf += 1
                 vs = rec["case"]["verSub"]
-                ctx.report("noise:version-confusion:%d<->%d" %
-                           (min(rec["iVer"], rec["rVer"]), max(rec["iVer"], rec["rVer"])),
+                # the key names the pattern and which version bytes the relay
+                # rewrote (x = left alone), so that a confusion reached in a
+                # different way is a different finding
+                ctx.report("noise:version-confusion:%s:acts=%s:%d<->%d" %
+                           (rec["case"]["pattern"],
+                            ",".join("x" if v < 0 else str(v) for v in vs),
+                            min(rec["iVer"], rec["rVer"]), max(rec["iVer"], rec["rVer"])),
                            "both parties complete with different versions "
                            "(client %d, server %d) after the relay rewrote "
                            "version bytes %s: %s" %
